@@ -187,6 +187,20 @@ impl AcquisitionLedger {
         }
     }
 
+    /// Whether apportioning `adjustment` over the held lots would leave any of them
+    /// with negative adjusted cost.
+    pub fn adjustment_exceeds_lot_cost(&self, adjustment: Decimal) -> bool {
+        let total_held: Decimal = self.lots.iter().map(|lot| lot.held_for_adjustment()).sum();
+        if total_held == Decimal::ZERO {
+            return false;
+        }
+        self.lots.iter().any(|lot| {
+            let held = lot.held_for_adjustment();
+            held > Decimal::ZERO
+                && lot.adjusted_cost() + adjustment * (held / total_held) < Decimal::ZERO
+        })
+    }
+
     /// Total adjusted cost across all lots with remaining shares.
     pub fn total_adjusted_cost(&self) -> Decimal {
         self.lots
